@@ -27,7 +27,7 @@ CHECKS = {
               "envelope delivery optionally released one at a time by a drawn tape. Oracle (history invariant): handler-received == caller-sent up to where the handler stopped reading, io.EOF exactly after half-close, "
               "caller-received == handler-sent complete and in order, terminal receive is io.EOF iff the handler returned nil, repeated receives after the end never yield data. "
               "Non-trivial = envelopes of >=2 calls interleaved on one connection, or >=11 messages one way, or separate sender/receiver goroutines; distinct = canonical case JSON hash."),
-        jobs=[dict(test="TestC02", quick=4800, thorough=40000), dict(test="TestC02Race", quick=200, thorough=2000, shards=4)],
+        jobs=[dict(test="TestC02", quick=4800, thorough=40000), dict(test="TestC02Race", quick=200, thorough=2000, shards=4), dict(test="FuzzC02", kind="fuzz", quick=0, thorough=90)],
         floors={"interleaved=true": 0.2, "concurrent=true": 0.1, "msgs>=11": 0.05, "kind=client": 0.1, "kind=server": 0.1, "kind=bidi": 0.2},
         assumptions=COMMON_ASSUMPTIONS,
     ),
@@ -38,7 +38,7 @@ CHECKS = {
               "foreign: scripted peer instead of a goat server, 15 reply shapes (explicit OK status+body, status without trailer metadata, status+body, reset alone / without trailer / before / after the trailer, trailer without status...). "
               "race: the server's trailer Write is parked while the caller sends 1..4 more bodies, then released (reset vs trailer). "
               "Non-trivial = non-OK outcome with >=1 detail, or mid-stream failure position, or any foreign/race case; distinct = canonical case hash."),
-        jobs=[dict(test="TestC03", quick=4800, thorough=40000), dict(test="TestC03Foreign", quick=800, thorough=10000, shards=4), dict(test="TestC03Race", quick=400, thorough=5000, shards=4)],
+        jobs=[dict(test="TestC03", quick=4800, thorough=40000), dict(test="TestC03Foreign", quick=800, thorough=10000, shards=4), dict(test="TestC03Race", quick=400, thorough=5000, shards=4), dict(test="FuzzC03", kind="fuzz", quick=0, thorough=90)],
         floors={"pos=mid-stream": 0.02, "race=armed": 0.02},
         assumptions=COMMON_ASSUMPTIONS,
     ),
@@ -48,7 +48,7 @@ CHECKS = {
               "handlers calling SetHeader 0..3 times, optional SendHeader, headers leaving with first message or with the status, late SetHeader, SetTrailer 0..3 times, grpc.SetHeader/SendHeader/SetTrailer in unary handlers, trailers with error returns. "
               "Oracle model.MD (independent join/lower-case/base64 implementation): handler's incoming metadata, Header(), Trailer(), unary InHeader (recording stats handler) and the tap (decoded by the model) all equal the model; response metadata only on the first response envelope. "
               "Non-trivial = a -bin value with NUL or non-UTF-8 bytes, or a key with >=2 values, or >=2 set calls; distinct = canonical case hash."),
-        jobs=[dict(test="TestC04", quick=4800, thorough=50000), dict(test="TestC04Foreign", quick=800, thorough=10000, shards=4)],
+        jobs=[dict(test="TestC04", quick=4800, thorough=50000), dict(test="TestC04Foreign", quick=800, thorough=10000, shards=4), dict(test="FuzzC04", kind="fuzz", quick=0, thorough=90)],
         floors={"md-nontrivial": 0.3, "hdr-via=sendheader": 0.03, "hdr-via=first-message": 0.05, "hdr-via=with-trailer": 0.05, "unary": 0.1},
         assumptions=COMMON_ASSUMPTIONS,
     ),
@@ -83,7 +83,7 @@ CHECKS = {
               "(all positions; quick tier samples 7 positions when L>10). Oracle: every receive issued after the cancellation returns; what is received overall is a prefix of what the handler really sent; within unread+1 receives the result is the Canceled/DeadlineExceeded status and stays so; never io.EOF; "
               "a later send fails with the context's error; Header() returns; a reset for the id is on the tap; the handler's context is done at the next quiescent point and the handler has exited; bystanders complete exactly; the cancelled stream's wire projection conforms (C06). "
               "Non-trivial = trace length >=2, or >=1 unread response, or deadline; distinct = distinct scenario; counters.positions = number of (scenario, position) executions."),
-        jobs=[dict(test="TestC07", quick=1280, thorough=6000)],
+        jobs=[dict(test="TestC07", quick=1280, thorough=6000), dict(test="FuzzC07", kind="fuzz", quick=0, thorough=90)],
         floors={"unread>=3": 0.07, "deadline=true": 0.25, "kind=bidi": 0.15, "kind=server": 0.15, "kind=client": 0.15},
         assumptions=COMMON_ASSUMPTIONS + ["handlers that ignore >=2 queued requests and then wait are documented head-of-line blocking and generated under C11, not here"],
     ),
@@ -93,7 +93,7 @@ CHECKS = {
               "(b) rapid cases over the same two modes plus scripted peers that send more than expected: a scripted caller sending 1..6 bodies/trailers after its half-close to a handler that lingers or has returned, and a scripted server sending 1..6 bodies/trailers/resets/replies after the trailer (or after the unary reply); 0..4 bystander RPCs (unary and ping-pong streams) in flight, one probe unary call with a 1h virtual deadline started afterwards. "
               "Oracle: probe returns its exact reply (DeadlineExceeded means everything was stuck), bystanders complete exactly, the abandoned call terminates (with the handler's status for early returns), no definitive deadlock (watchdog). "
               "Non-trivial = >=2 unread bodies, >=3 unread responses, surplus envelopes, or >=1 bystander; distinct = distinct case."),
-        jobs=[dict(test="TestC11Grid", kind="enum", quick=1, thorough=1, shards=1), dict(test="TestC11", quick=3200, thorough=20000)],
+        jobs=[dict(test="TestC11Grid", kind="enum", quick=1, thorough=1, shards=1), dict(test="TestC11", quick=3200, thorough=20000), dict(test="FuzzC11", kind="fuzz", quick=0, thorough=90)],
         floors={"mode=handler-early": 0.1, "mode=caller-cancel": 0.1, "mode=client-extra": 0.1, "mode=server-extra": 0.1},
         assumptions=COMMON_ASSUMPTIONS + ["a caller that stops reading without cancelling is documented head-of-line blocking (the quantifier lists cancellation) and is not generated"],
     ),
@@ -104,7 +104,7 @@ CHECKS = {
               "one more unary call and one more stream are started after the failure, and optionally a call is parked by the verif hook between the multiplexer's failure check and its registration until the failure has been recorded. "
               "Oracle: at the next quiescent point every call has returned; a call succeeds only if its complete response had been delivered, and then with exactly the scripted data; streams receive a prefix of the scripted bodies and never end in io.EOF before their trailer was delivered; Header() returns; calls started afterwards and the window call fail. "
               "Non-trivial = trace length >=2, or window armed, or write side still writable; counters.positions = (scenario, position) executions."),
-        jobs=[dict(test="TestC09", quick=960, thorough=6000), dict(test="TestC09Storm", quick=1600, thorough=40000)],
+        jobs=[dict(test="TestC09", quick=960, thorough=6000), dict(test="TestC09Storm", quick=1600, thorough=40000), dict(test="FuzzC09", kind="fuzz", quick=0, thorough=90)],
         floors={"window=unary": 0.03, "window=stream": 0.03, "write_fails=false": 0.1},
         assumptions=COMMON_ASSUMPTIONS + ["the check-then-register window is reached through the verif-tagged yield points mux.unary.beforeRegister / mux.stream.beforeRegister"],
     ),
@@ -114,7 +114,7 @@ CHECKS = {
               "the connection ends by a read failure after p delivered request envelopes, by a failure of the j-th response write, or by Server.Stop() after p deliveries (p, j drawn over the whole trace). "
               "Oracle at the quiescent point after the ending: Serve has returned - but not while a context-ignoring streaming handler is still running; every streaming handler has finished; the context of every in-flight handler, unary included, is done; "
               "after the context-ignoring unary handlers have been released and returned, the synctest bubble ends with no goroutine left. Non-trivial = >=1 unary and >=1 stream in flight, or a handler parked in send."),
-        jobs=[dict(test="TestC10", quick=4800, thorough=30000)],
+        jobs=[dict(test="TestC10", quick=4800, thorough=30000), dict(test="FuzzC10", kind="fuzz", quick=0, thorough=90)],
         floors={"ending=readfail": 0.15, "ending=writefail": 0.15, "ending=stop": 0.15, "parked-in-send": 0.1},
         assumptions=COMMON_ASSUMPTIONS + ["cancelling the context passed to Serve is not among the endings the property lists and is not generated"],
     ),
@@ -156,7 +156,7 @@ CHECKS = {
               "(ok, handler error, caller cancel, virtual-clock deadline, server reset of a stream whose handler returned while the caller keeps sending, open whose transport write fails), 0..3 messages each; after every round the bubble is settled (quiescent point). "
               "Invariant at every quiescent point: goat.VerifClientCalls(cc)==0, goat.VerifServerStreams()==0 (verif-tagged registry accessors) and the multiset of creation sites of the bubble's live goroutines equals the idle set recorded right after connection start. "
               "Non-trivial = history with >=3 different outcomes and a round of >=8 RPCs; counters.rpcs = RPCs executed."),
-        jobs=[dict(test="TestC14", quick=1600, thorough=48000)],
+        jobs=[dict(test="TestC14", quick=1600, thorough=48000), dict(test="FuzzC14", kind="fuzz", quick=0, thorough=90)],
         floors={"outcome=openfail": 0.2, "outcome=cancel": 0.2, "outcome=deadline": 0.2, "outcome=reset": 0.2},
         assumptions=COMMON_ASSUMPTIONS + ["registry sizes are read through the verif-tagged accessors VerifClientCalls / VerifServerStreams"],
     ),
@@ -167,7 +167,7 @@ CHECKS = {
               "Oracle model.Chain: server interceptors and handler each entered and exited exactly once per RPC, nested in registration order; the handler sees the composed request and metadata, the caller the reverse-composed reply or mapped error; "
               "per stats handler and RPC tag: Begin first, exactly one Begin and one End, End.Error==nil iff the RPC succeeded on that side, no event without the tag, TagRPC once per RPC (server side may see none for an RPC that never reached it); exactly one ConnBegin and ConnEnd per connection per handler. "
               "Non-trivial = chain length >=3, or a non-ok outcome, or >=2 stats handlers on a side."),
-        jobs=[dict(test="TestC20", quick=4800, thorough=30000)],
+        jobs=[dict(test="TestC20", quick=4800, thorough=30000), dict(test="FuzzC20", kind="fuzz", quick=0, thorough=90)],
         floors={"outcome=cancel": 0.05, "outcome=transport": 0.05, "outcome=openfail": 0.03, "chain=6": 0.05, "single=true": 0.02},
         assumptions=COMMON_ASSUMPTIONS + ["a caller's cancellation of a unary call is not conveyed to the server by goat (no reset for unary calls); the harness releases such handlers itself"],
     ),
@@ -179,7 +179,7 @@ CHECKS = {
               "rpc: the C01-C04 generators (unary exactness, stream delivery, status fidelity, metadata) through 1..4 clients -> proxy -> Demux keyed by source -> one Serve per client, same oracles as on a direct connection. "
               "burst: 17..60 envelopes (or a server stream of that many messages) to one destination whose writes are parked: loss equal to the verif drop counter is the listed known finding proxy-drop; any other loss, duplicate or reordering is a violation. "
               "Non-trivial = >=2 sources to one destination, a dial-on-demand peer, a rewrite, >=2 proxy clients, or a burst."),
-        jobs=[dict(test="TestC16", quick=1600, thorough=20000), dict(test="TestC16RPC", quick=960, thorough=12000), dict(test="TestC16Burst", quick=64, thorough=1000, shards=4)],
+        jobs=[dict(test="TestC16", quick=1600, thorough=20000), dict(test="TestC16RPC", quick=960, thorough=12000), dict(test="TestC16Burst", quick=64, thorough=1000, shards=4), dict(test="FuzzC16", kind="fuzz", quick=0, thorough=90)],
         floors={"dial_on_demand=true": 0.1, "rewrite=alias": 0.03, "burst.rpc=true": 0.005},
         assumptions=COMMON_ASSUMPTIONS + ["loss is attributed to buffer overflow through the verif-tagged counter at the proxy's drop site"],
     ),
@@ -189,7 +189,7 @@ CHECKS = {
               "bad peer (a destination whose writes never complete with 20 envelopes queued for it, a failing reader, a failing writer, a dial error, a dial still in progress), re-attachment of c1 under its name before or after the old connection fails on read or write, and cancellation of the proxy's context after 0..8 steps. "
               "Oracle: no crash; spoofed/headerless envelopes reach nobody; every honest envelope arrives exactly once at the next quiescent point whatever the bad peer does; a failed connection is reported to the disconnect callback and an envelope to its name then triggers a fresh dial; "
               "after re-attachment traffic reaches the new connection; after cancellation nothing is forwarded, Serve returns and the synctest bubble ends with no goroutine left. Non-trivial = every case (all involve a fault, a spoof or a cancellation)."),
-        jobs=[dict(test="TestC17", quick=3200, thorough=30000)],
+        jobs=[dict(test="TestC17", quick=3200, thorough=30000), dict(test="FuzzC17", kind="fuzz", quick=0, thorough=90)],
         floors={"mode=cancel": 0.1, "mode=reattach/old_first=false/read": 0.02, "mode=spoof/other-source": 0.02},
         assumptions=COMMON_ASSUMPTIONS,
     ),
@@ -199,7 +199,7 @@ CHECKS = {
               "write an envelope on k's logical connection, Cancel(k), Stop()}, the bubble settled after every operation; reference model model.Demux simulates the run loop (FIFO of fed envelopes, lookup/creation of the key's current life, hand-off blocked by a paused reader, drop of the parked envelope on Cancel, new life on next use). "
               "Oracle: every logical connection received exactly the envelopes the model hands to that life, in order; announcements == key lives; envelopes written on logical connections appear unchanged and in order on the shared transport; writes on a cancelled connection fail without blocking; readers of cancelled connections have returned with an error; Run has returned after Stop; no panic. "
               "rpc: the C01/C02 generators from 2..4 logical clients through one shared transport into one Server via Demux keyed by source, same oracles. Non-trivial = >=2 keys, a Cancel or a Stop."),
-        jobs=[dict(test="TestC18", quick=6400, thorough=80000), dict(test="TestC18RPC", quick=320, thorough=8000), dict(test="TestC18Parked", quick=300, thorough=3000, shards=4)],
+        jobs=[dict(test="TestC18", quick=6400, thorough=80000), dict(test="TestC18RPC", quick=320, thorough=8000), dict(test="TestC18Parked", quick=300, thorough=3000, shards=4), dict(test="FuzzC18", kind="fuzz", quick=0, thorough=90)],
         floors={"cancel=true": 0.2, "stop=true": 0.02, "cancel_while_parked=true": 0.02},
         assumptions=COMMON_ASSUMPTIONS,
     ),
